@@ -139,10 +139,12 @@ class Cli:
 
     @property
     def version_string(self):
+        # Header is a raw triple-quoted string: break up runs of quotes that would terminate it
+        command = " ".join(sys.argv).replace('""', '"\\"')
         return (
             'r"""\n'
             f'generated by json2python-models v{VERSION} at {datetime.now().ctime()}\n'
-            f'command: {" ".join(sys.argv)}\n'
+            f'command: {command}\n'
             '"""\n'
         )
 
